@@ -74,7 +74,7 @@ def run(ctx):
     warnings.filterwarnings("ignore")
     from quantecon.markov import DiscreteDP
 
-    n_inst = 160 if thorough else 48
+    n_inst = 160 if thorough else 80
     insts = [
         Inst(2, 2, [[Fraction(5), Fraction(10)], [Fraction(-1), None]],
              [[[Fraction(1, 2), Fraction(1, 2)], [Fraction(0), Fraction(1)]], [[Fraction(0), Fraction(1)], [Fraction(1, 2), Fraction(1, 2)]]],
